@@ -19,8 +19,17 @@ type Options struct {
 	Shared      Visited                // visited-state table shared by several explorer processes (nil: private map)
 	Shuffle     uint64                 // != 0: pseudo-random option order derived from this seed (parallel explorers diverge)
 	Watch       []Choice               // debugging: report why the explorer does not follow this schedule
-	Prefix      []Choice               // explore only the subtree below this choice prefix (parallel workers)
+	Prefix      []PrefixStep           // explore only the subtree below this choice prefix (parallel workers)
+	// FrontierDepth > 0: do not expand decision points at this depth; hand their prefix to OnFrontier instead
+	FrontierDepth int
+	OnFrontier    func(prefix []PrefixStep)
 	Record      bool                   // keep traces for every execution (slow; replay / samples)
+}
+
+// PrefixStep is one pinned decision with its preemption cost.
+type PrefixStep struct {
+	C    Choice `json:"c"`
+	Cost int8   `json:"k"`
 }
 
 // Execution is what the explorer hands to the oracle after each execution.
@@ -51,6 +60,7 @@ type Stats struct {
 	Bound         int
 	Executions    int64 // complete executions (any outcome except pruned)
 	Pruned        int64 // executions cut by the state cache (every option of a decision point already covered)
+	Frontier      int64 // executions stopped at the frontier depth (handed to workers)
 	Skipped       int64 // options dropped by the state cache without being executed
 	SleepSkipped  int64 // options not offered because they were asleep (sleep sets)
 	CacheStates   int64
@@ -141,6 +151,19 @@ func (c *controller) pick(w *World, prev *G) (*G, int32) {
 	}
 	if d == len(c.stack) {
 		// a new decision point
+		if c.opts.FrontierDepth > 0 && d >= c.opts.FrontierDepth {
+			if len(c.options(w, prev, c.opts.Bound-c.used)) == 0 {
+				return nil, 0 // the execution ends here anyway
+			}
+			p := make([]PrefixStep, d)
+			for i := 0; i < d; i++ {
+				o := c.stack[i].opts[c.stack[i].idx]
+				p[i] = PrefixStep{C: o.c, Cost: o.cost}
+			}
+			c.opts.OnFrontier(p)
+			w.end(Frontier)
+			return nil, 0
+		}
 		remaining := c.opts.Bound - c.used
 		opts := c.options(w, prev, remaining)
 		if len(opts) == 0 {
@@ -470,8 +493,8 @@ func Explore(body func(), opts Options, onExec func(*Execution) bool) Stats {
 	st := Stats{Bound: opts.Bound}
 	if len(opts.Prefix) > 0 {
 		// pin the prefix: single-option nodes
-		for _, ch := range opts.Prefix {
-			c.stack = append(c.stack, node{opts: []option{{c: ch}}})
+		for _, ps := range opts.Prefix {
+			c.stack = append(c.stack, node{opts: []option{{c: ps.C, cost: ps.Cost, explored: true}}, started: true})
 		}
 	}
 	pinned := len(opts.Prefix)
@@ -482,7 +505,9 @@ func Explore(body func(), opts Options, onExec func(*Execution) bool) Stats {
 			st.Broken = e.Broken
 			return st
 		}
-		if e.Outcome == Pruned {
+		if e.Outcome == Frontier {
+			st.Frontier++
+		} else if e.Outcome == Pruned {
 			st.Pruned++
 			if len(e.Races) > 0 && !onExec(e) {
 				st.Stopped = "oracle"
